@@ -284,3 +284,79 @@ def classify_frag(a, o):
         where.append("cfg")
     head = "in-theorem" + ("+exact" if h["exact"] else "+xsi:type") if not where else "outside:" + ",".join(where)
     return "%s wf=%s says=%s" % (head, h["wf"], h["says"])
+
+
+# ------------------------------------------------------------------ xsi:type markers: metadata vs document
+XSI = "http://www.w3.org/2001/XMLSchema-instance"
+
+
+def expected_xsi_types(ctx, v):
+    """the `xsi:type` markers the metadata prescribes for an instance (read off the exported metadata,
+    independently of the generator): an object held by an element field that does not list its class
+    is marked with the qualified name of its class.  As a sorted list (sequence groups interleave)."""
+    by = {ci["id"]: ci for ci in ctx["classes"]}
+    out = []
+
+    def go(x):
+        if not (isinstance(x, dict) and "obj" in x) or x["obj"] not in by:
+            return
+        m = by[x["obj"]]["metas"][0][1]
+        for var in _element_vars(m):
+            val = _look(x["fields"], var["name"])
+            items = val["list"] if isinstance(val, dict) and "list" in val else [val]
+            for it in items:
+                if isinstance(it, dict) and "obj" in it:
+                    if {"cls": it["obj"]} not in var["types"] and it["obj"] in by:
+                        out.append(by[it["obj"]]["metas"][0][1]["target_qname"])
+                    go(it)
+
+    go(v)
+    return sorted(out)
+
+
+def document_xsi_types(text):
+    """the `xsi:type` attributes of the document, resolved in their namespace scope, in Clark notation"""
+    from props import c03_oracle as O
+
+    out = []
+
+    def go(n):
+        if n[0] != "e":
+            return
+        for a in n[3]:
+            if (a[0], a[1]) == (XSI, "type"):
+                u, l = O._resolve(a[2], n[5])
+                out.append("{%s}%s" % (u, l) if u else l)
+        for k in n[4]:
+            go(k)
+
+    go(O.parse_scoped(text))
+    return sorted(out)
+
+
+# ------------------------------------------------------------------ oracle: the theorems' domain on the real code
+def check_frag(a):
+    """inside the input-level hypotheses of `serialize_wellformed_FN_partial` (judged by the Python
+    transcriptions only) the real serializer must succeed — a declared serializer error is NOT
+    acceptable there —, its document must be well-formed and, with `valExactOK`, denote the harness's
+    reading of the real generator's events"""
+    h = impl_frag(a)["ok"]
+    cfg = a["cfg"]
+    if not (h["frag"] and h["ctx_lex"] and h["val_lex"] and h["user_map"]) or cfg.get("indent") or cfg.get("schema_location") or cfg.get("no_ns"):
+        return None
+    out = h["out"]
+    if "ok" not in out:
+        return "the serializer fails inside the domain of serialize_wellformed_FN_partial: %s" % (out,)
+    if not h["wf"]:
+        return "not well-formed inside the domain of serialize_wellformed_FN_partial: %r" % out["ok"][:300]
+    if h["exact"] and not h["says"]:
+        return "the document does not denote the generated events (serialize_says_metadata_FN_partial): %r" % out["ok"][:300]
+    want, got = expected_xsi_types(a["ctx"], a["value"]), document_xsi_types(out["ok"])
+    if want != got:
+        return "xsi:type markers %s, the metadata prescribes %s in %r" % (got, want, out["ok"][:300])
+    return None
+
+
+from framework import Oracle  # noqa: E402
+
+ORACLE = Oracle("c03.frag", gen_frag, check_frag, from_ops=("ser.frag",))
